@@ -29,9 +29,11 @@ theorem matchC_transparent (ic : Bool) (k : Cache) (name pat : String) (h : Cach
     (matchC ic k name pat).1 = matchPure ic name pat ∧ CacheInv (matchC ic k name pat).2 :=
   GlobL.matchC_transparent ic k name pat h
 
-/-- the cache never grows beyond `_MAXCACHE` + 1 entries … -/
+/-- the cache never holds more than `_MAXCACHE` entries (one, should `_MAXCACHE` be set to 0): whatever the value of
+the constant - the statement does not depend on it -/
 theorem matchC_bounded (ic : Bool) (k : Cache) (name pat : String)
-    (h : k.length ≤ Generated.maxCache) : (matchC ic k name pat).2.length ≤ Generated.maxCache :=
+    (h : k.length ≤ max Generated.maxCache 1) :
+    (matchC ic k name pat).2.length ≤ max Generated.maxCache 1 :=
   GlobL.matchC_bounded ic k name pat h
 
 /-- `glob` with any well-formed cache state gives the result it gives with an empty cache, and leaves
